@@ -27,6 +27,10 @@ CLAIMED["C13"] = ("full", "6/C13", "Lean 4 proof by induction over the record lo
   "include_is_shifted_patch + malformed_rejected for every byte string and every signed delta (plain, run-length, max-length records). Tie: stream S8-ipsr (records of all kinds, truncations, bad header, no EOF, trailing bytes, exact file sizes k*8192+{-3..3}) and S8-include-in-program (surroundings unaffected, records in order).",
   "File I/O (open/read) is modelled as a byte list; buffering behaviour is exercised by the size-at-buffer-boundary files.")
 
+CLAIMED["C18"] = ("encoding full; round trip by correspondence", "6/C18", "Lean 4 proof by induction over the string (to_bytes = reference longest-match encoder for every table and string; the min(len, max_text_length) bound loses no match; fuel sufficiency = termination) + differential correspondence of script.Table",
+  "tryLen_longest, toBytes_is_encode, toBytes_fuel, jokerMatch_eq_escape, longest_isLongest. Tie: stream S9 (generated tables with overlapping prefixes, multi-byte codes, ignore suffixes, junk lines x strings with escapes and unknown characters; encode, decode; round trip on unique prefix-free tables as oracle on the real code) and S9-text-in-program (size in layout, table inheritance).",
+  "The decode round-trip theorem is not yet proved in Lean (it is checked by the oracle on generated prefix-free tables); table file parsing is a hand-written recogniser of the regex tied by correspondence.")
+
 NOT_YET = {}
 
 def main():
